@@ -66,6 +66,8 @@ pub fn alphabet(a: Alphabet) -> Vec<Op> {
                 (Tuple, &[0, 1]),
                 (Second, &[0, 1]),
                 (Outer, &[0, 1]),
+                (Nth, &[0, 1]),
+                (Pair, &[0, 1]),
             ]));
             ops.extend([Op::Retain(Node(Leaf, 0)), Op::Retain(Node(Outer, 0)), Op::Retain(Node(Outer, 1)), Op::Retain(Node(SumTracked, 0))]);
             ops.extend([Op::ClearRetain(0), Op::ClearRetain(1), Op::NeverGc(0), Op::Gc]);
@@ -81,7 +83,7 @@ pub fn alphabet(a: Alphabet) -> Vec<Op> {
         }
         Alphabet::InternGc => {
             ops.extend([Op::Set(0, 0), Op::Set(0, 1), Op::Set(0, 2), Op::Set(1, 0), Op::Set(1, 1)]);
-            ops.extend(calls(&[(Leaf, &[0]), (Interned, &[0, 1]), (Tuple, &[0]), (Second, &[0, 1]), (Outer, &[0, 1]), (DepParity, &[0])]));
+            ops.extend(calls(&[(Leaf, &[0]), (Interned, &[0, 1]), (Tuple, &[0]), (Second, &[0, 1]), (Outer, &[0, 1]), (DepParity, &[0]), (Pair, &[0])]));
             ops.extend([Op::Retain(Node(Outer, 0)), Op::Retain(Node(Second, 1)), Op::ClearRetain(0), Op::NeverGc(0), Op::Gc]);
         }
         Alphabet::Backdate => {
@@ -111,6 +113,9 @@ pub fn root_prefix(root: u8) -> Vec<Op> {
             }
             v.push(Op::Call(Node(Outer, 0)));
             v.push(Op::Call(Node(DepParity, 0)));
+            // the most recent top-level call (kept by a GC at any LRU capacity): a call whose inner calls
+            // share their first parameter with it
+            v.push(Op::Call(Node(Pair, 0)));
             v
         }
         _ => panic!("unknown root"),
@@ -239,6 +244,8 @@ impl Run {
                     (Val::Str(checked_string(m.lookup(db))?), Some(Held::Str(m)))
                 }
                 F::Outer => (Val::Usize(*outer(db, id).lookup(db)), None),
+                F::Nth => (Val::U8(checked_u8(nth(db, id_of(a / 2), a % 2).lookup(db))?), None),
+                F::Pair => (Val::U8(checked_u8(pair(db, id).lookup(db))?), None),
             })
         }));
         match r {
@@ -254,6 +261,7 @@ impl Run {
         match n.0 {
             F::Leaf => retain(db, leaf(db, id)),
             F::Outer => retain(db, outer(db, id)),
+            F::Pair => retain(db, pair(db, id)),
             F::Second => retain(db, second(db, id)),
             F::SumTracked => retain(db, sum_tracked(db)),
             _ => panic!("harness: Retain of {n:?} not wired"),
